@@ -262,10 +262,16 @@ impl PolicyMon {
             return Verdict::Inject(libc::ENOSYS);
         }
         if let Some((at, errno, sticky, only)) = &self.fault {
-            let counted = match only {
-                None => true,
-                Some(names) => names.iter().any(|n| n == sup::sysname(nr)),
-            };
+            // calls that cannot fail (or whose failure only trips std's debug
+            // assertions) are never chosen as the fault site
+            let name = sup::sysname(nr);
+            let never = matches!(name, "gettid" | "geteuid" | "close")
+                || (name == "fcntl" && _ev["cmd"].as_u64() == Some(1));
+            let counted = !never
+                && match only {
+                    None => true,
+                    Some(names) => names.iter().any(|n| n == name),
+                };
             if counted {
                 let c = self.fault_count;
                 self.fault_count += 1;
